@@ -456,8 +456,27 @@ class Groups(SubCheck):
         return out
 
 
+def stale_check(svg, tier):
+    from props import stale
+    measures = {
+        "bbox()": lambda o: o.bbox(),
+        "bbox(transformed=False)": lambda o: o.bbox(transformed=False),
+        "bbox(with_stroke=True)": lambda o: o.bbox(with_stroke=True),
+    }
+    extra = {
+        "subpath*=": lambda o: o.subpath(0).__imul__(svg.Matrix(2, 0, 0, 3, 1, -1)) if isinstance(o, svg.Path) else stale.c18._na(),
+        "transform.post_scale": lambda o: o.transform.post_scale(2, 3),
+        "transform=": lambda o: setattr(o, "transform", svg.Matrix(0, 1, -1, 0, 3, 4)) if hasattr(o, "transform") else stale.c18._na(),
+        "seg.end=": lambda o: setattr(stale.c18.first_seg(o), "end", svg.Point(77, -5)),
+        "seg.control1=": lambda o: setattr(stale.c18.first_seg_with(o, "control1"), "control1", svg.Point(30, -40)),
+        "seg.control=": lambda o: setattr(stale.c18.first_seg_with(o, "control"), "control", svg.Point(30, -40)),
+        "subpath.reverse": lambda o: o.subpath(0).reverse() if isinstance(o, svg.Path) else stale.c18._na(),
+    }
+    return stale.Stale(svg, measures, extra_mutations=extra, depth=2 if tier == "thorough" else 1)
+
+
 def build(tier, seed, svg):
-    return [Quads(svg, tier), Cubics(svg, tier), Arcs(svg, tier), Containers(svg, tier), Groups(svg, tier)]
+    return [Quads(svg, tier), Cubics(svg, tier), Arcs(svg, tier), Containers(svg, tier), Groups(svg, tier), stale_check(svg, tier)]
 
 
 MATCHERS = {}
